@@ -631,6 +631,49 @@ def run(ctx):
     if n_rp == 0:
         ctx.unknown('R15f', m, fn, 'no realpath call found', construct='realpath argument')
 
+    # ---- R15g: the directory that is tested is the configured one
+    ctx.rule('R15g', 'the attribute tex_input_directory is written by set_tex_input_directory() (and __init__) only: no '
+                     'temporary override moves the directory the containment test is made against', 2)
+    l2m_ = repo.mod('pylatexenc.latex2text')
+    for q_, f_ in sorted(l2m_.functions.items()):
+        for x_ in iter_own(f_):
+            hit = None
+            if isinstance(x_, ast.Attribute) and isinstance(x_.ctx, ast.Store) and x_.attr == 'tex_input_directory':
+                hit = x_
+            if isinstance(x_, ast.Call) and any(isinstance(a_, ast.Constant) and a_.value == 'tex_input_directory'
+                                               for a_ in x_.args):
+                hit = x_
+            if hit is None:
+                continue
+            okw = q_.endswith('.set_tex_input_directory') or q_.endswith('.__init__')
+            ctx.decide('R15g', okw, l2m_, enclosing_stmt(hit) or hit, '%s sets tex_input_directory' % q_,
+                       '%s overrides tex_input_directory (%s): files requested while the override is active are resolved and '
+                       'tested against another directory than the configured one (a symlinked sub-directory moves the base '
+                       'outside), so an outside file is read in strict mode' % (q_, short(hit, 60)),
+                       construct='%s: write of tex_input_directory' % q_)
+    # ---- R15h: paired push/pop of converter state
+    ctx.rule('R15h', 'converter state pushed for the duration of an \\input (self.X.append(..) ... self.X.pop()) is popped in '
+                     'a finally clause: an exception raised in between must not leave the file marked as being read', 0)
+    n_pp = 0
+    for q_, f_ in sorted(l2m_.functions.items()):
+        pushes = [c_ for c_ in iter_own(f_) if isinstance(c_, ast.Call) and call_name(c_) == 'append' and
+                  call_recv(c_) is not None and is_self_attr(call_recv(c_))]
+        for pu in pushes:
+            attr = call_recv(pu).attr
+            pops = [c_ for c_ in iter_own(f_) if isinstance(c_, ast.Call) and call_name(c_) in ('pop', 'remove') and
+                    call_recv(c_) is not None and is_self_attr(call_recv(c_), attr)]
+            if not pops:
+                continue
+            n_pp += 1
+            infinal = all(any(isinstance(p_, ast.Try) and any(c_ is y_ for s_ in p_.finalbody for y_ in ast.walk(s_))
+                              for p_ in parents(c_)) for c_ in pops)
+            ctx.decide('R15h', infinal, l2m_, pops[0], '%s: self.%s popped in a finally clause' % (q_, attr),
+                       '%s pushes onto self.%s and pops it again outside any finally clause: when the conversion in between '
+                       'raises (a parse error in an included file) the entry stays, and from then on that file is taken for '
+                       'a recursive \\input and comes back empty although it lies inside the directory' % (q_, attr),
+                       construct='%s: push/pop of self.%s' % (q_, attr))
+    ctx.holds('R15h', l2m_, None, '%d push/pop pair(s) on converter state' % n_pp, construct='push/pop scan', trivial=True)
+
     return 'other', (
         'Decides, on the source of read_latex_file / read_input_file, the necessary structural '
         'conditions of strict-input containment: component-aware test, canonical value checked, '
